@@ -14,6 +14,7 @@ CONSTANTS
   PeerFaults = {"silence"}
   DeadlineBeforeLock = FALSE
   NoGuard = FALSE
+  GuardPerClient = FALSE
   RearmPerRead = TRUE
   NoCloseOnError = FALSE
 VIEW View
